@@ -99,11 +99,23 @@ def gen_arg(rnd, islist, used, listvars):
         if islist:
             listvars.add(v)
         return v
+    def pair():
+        # a structured element with a variable possibly nested inside (association-list style)
+        out = ["list"]
+        for _ in range(2):
+            if rnd.random() < 0.4:
+                v = rnd.choice(QV); used.add(v); out.append(v)
+            else:
+                out.append(rnd.randint(1, 2))
+        return out
     if islist:
         n = rnd.randint(0, 3)
         items = []
+        structured = rnd.random() < 0.25
         for _ in range(n):
-            if rnd.random() < 0.25:
+            if structured and rnd.random() < 0.8:
+                items.append(pair())
+            elif rnd.random() < 0.25:
                 v = rnd.choice(QV); used.add(v); items.append(v)
             else:
                 items.append(rnd.randint(1, 2))
@@ -111,6 +123,8 @@ def gen_arg(rnd, islist, used, listvars):
             v = rnd.choice(QV); used.add(v); listvars.add(v)
             return ["ilist"] + items + [v]
         return ["list"] + items if items else "nil"
+    if rnd.random() < 0.25:
+        return pair()
     return rnd.randint(1, 3)
 
 
@@ -187,7 +201,8 @@ def count_member1(args):
     if isinstance(args[1], list) and args[1][0] == "list" and all(isinstance(x, int) for x in args[1][1:]):
         if isinstance(args[0], int):
             return 1 if args[0] in args[1][1:] else 0
-        return len(set(args[1][1:]))
+        if isinstance(args[0], str):
+            return len(set(args[1][1:]))
     return None
 
 
